@@ -94,7 +94,7 @@ def run_tlc(module: str, cfg: str | Path | None = None, *, workers: int | str = 
         # a small young generation avoids first-touch page faults of a huge fresh heap (measured: 78 s -> 24 s)
         nw = workers if isinstance(workers, int) else NCPU
         jopts = ['-XX:+UseParallelGC', '-Xss16m', '-Xmx6g' if nw > 1 else '-Xmx3g', '-Xmn512m' if nw > 1 else '-Xmn192m',
-                 f'-XX:ParallelGCThreads={max(2, min(8, nw))}']
+                 f'-XX:ParallelGCThreads={max(2, min(8, nw))}', f'-Djava.io.tmpdir={tmp}']      # TLC's own temporaries go with the scratch dir
         if dfs:
             jopts.append('-Dtlc2.tool.queue.IStateQueue=StateDeque')
         cmd = ['java', *jopts, '-cp', TLA_JAR, 'tlc2.TLC', '-workers', str(workers),
